@@ -17,7 +17,8 @@ def base_desc(rnd):
     s.inherit_env = True
     s.reads = ["src/hdr.h"]
     s.deps_style = "makefile"
-    s.attrs.update({"description": "RUN S", "allow-missing-inputs": "false", "allow-modified-outputs": "false", "always-out-of-date": "false", "can-safely-interrupt": "true"})
+    tf = lambda pr: "true" if rnd.random() < pr else "false"
+    s.attrs.update({"description": "RUN S", "allow-missing-inputs": tf(0.3), "allow-modified-outputs": tf(0.3), "always-out-of-date": "false", "can-safely-interrupt": tf(0.7)})
     if rnd.random() < 0.3:
         s.attrs["working-directory"] = "."
     dn = Cmd("D", "shell", inputs=["out/s.o"], outputs=["out/d.o"], salt="d")
@@ -45,10 +46,11 @@ def mutations():
     def in2out(d):
         c = d.cmds["S"]; c.inputs.remove("src/b.txt"); c.outputs.insert(0, "src/b.txt"); return "S"
     def depstyle(d): d.cmds["S"].extra["deps-style"] = "makefile-ignoring-subsequent-outputs"; return "S"
-    def ami(d): d.cmds["S"].attrs["allow-missing-inputs"] = "true"; return "S"
-    def amo(d): d.cmds["S"].attrs["allow-modified-outputs"] = "true"; return "S"
+    def flip(d, k): a = d.cmds["S"].attrs; a[k] = "false" if a.get(k) == "true" else "true"; return "S"
+    def ami(d): return flip(d, "allow-missing-inputs")
+    def amo(d): return flip(d, "allow-modified-outputs")
     def aood(d): d.cmds["S"].attrs["always-out-of-date"] = "true"; return "S"
-    def csi(d): d.cmds["S"].attrs["can-safely-interrupt"] = "false"; return "S"
+    def csi(d): return flip(d, "can-safely-interrupt")
     def rename(d):
         items = list(d.cmds.items()); d.cmds = {}
         for n, v in items:
@@ -268,7 +270,7 @@ def run(tier, replay):
         chk.cov.update(null_builds=nulls, definition_pairs_built=pairs, signature_pairs=sigpairs + sn, structural_signature_pairs=sn, builds=builds, pairs_by_attribute=kinds)
         chk.sample({"attribute": "args: one character moved across the boundary of adjacent arguments", "a": ["--x", "ab", "c"], "b": ["--x", "a", "bc"]})
         chk.cov["rule"] = ("(1) after every successful build of the C08 history workload the same target is rebuilt in a new process: the run log must not grow; (2) description pairs "
-                           "differing in exactly one attribute of one shell command (20 attributes incl. argument/env boundaries, node moved from inputs to outputs, flags, rename; "
+                           "differing in exactly one attribute of one shell command (20 attributes incl. argument/env boundaries, node moved from inputs to outputs, flags that start at a random value and are flipped, rename; "
                            "explicit-signature variants), files untouched: signature-relevant -> the command must appear in the run log, irrelevant (description, command order, extra "
                            "target) -> nothing may run; output tampering must re-run the producer and nothing outside its downstream cone; (3) Command::getSignature() observed through "
                            "the delegate for each pair and for 17 structural near-collisions must differ, and be identical across separate processes; distinct = attribute kinds exercised")
